@@ -151,5 +151,26 @@ CHECKS["C06"] = dict(
           dict(name="disk", test="^TestQueryDisk$", quick=dict(n=1000, procs=2, timeout=300), thorough=dict(n=30000, procs=6, timeout=2400))],
 )
 
+CHECKS["C03"] = dict(
+    level="exploration",
+    technique="complete enumeration of the target x request grammar at Key.ValidateChannel + property testing (rapid) of Service.Authorize with every conjunct drawn "
+              "independently against a reference predicate; permission-per-operation enumeration through real connections",
+    level_text="(1) every (target, request) pair of the grammar (targets depth<=3 over {a,b,+} with/without #/, requests depth<=4 over {a,b,c,+} with/without #; "
+               "thorough: targets depth<=4 over {a,b,c,+}) is compared with the reference 'covers' in both directions (no over-, no under-permission); "
+               "(2) generated tuples (license version 1-3, own/second/unknown contract, signature, master id, permission mask, needed permission, expiry, ban "
+               "state, undecryptable key strings, target, request) through Service.Authorize: allowed iff every conjunct holds, each conjunct is seen deciding; "
+               "(3) for all 128 permission masks x 3 license versions the operations subscribe/publish/history/presence/key-extension through a connection "
+               "need exactly read/write/load/presence/extend, and a second contract's key never reaches the first contract's subscribers.",
+    level_note="Trusted: the 25-line reference 'covers' (requests ending in '#' against exact targets are unspecified and excluded, counted), keys built field by field "
+               "and encrypted with the license cipher, a delegating contract provider over emitter's own SingleContractProviders. The listed finding (targets "
+               "whose last level is '+') is excluded from the under-permission direction only; over-permission is asserted everywhere.",
+    rule="matrix cells + generated tuples + masks; non-trivial = matrix cell that is allowed or refused by exactly one level / one depth step; tuple where exactly "
+         "one conjunct fails or all hold; distinct = distinct case value.",
+    legs=[dict(name="matrix", test="^TestCoversMatrix$", kind="plain", quick=dict(n=1, procs=1, timeout=300), thorough=dict(n=1, procs=1, timeout=1200)),
+          dict(name="deep", test="^TestCoversDeep$", quick=dict(n=20000, procs=2, timeout=300), thorough=dict(n=2000000, procs=4, timeout=2400)),
+          dict(name="authorize", test="^TestAuthorize$", quick=dict(n=6000, procs=3, timeout=300), thorough=dict(n=600000, procs=12, timeout=2400)),
+          dict(name="entry-points", test="^TestEntryPoints$", kind="plain", quick=dict(n=1, procs=1, timeout=300), thorough=dict(n=1, procs=1, timeout=600))],
+)
+
 for _k in CHECKS:
     NOT_APPLICABLE.pop(_k, None)
